@@ -1102,6 +1102,53 @@ fn big_stream(ctx: &mut Ctx) {
 		cap_case!(u8, Lsb0, "u8,Lsb0");
 		cap_case!(u64, Msb0, "u64,Msb0");
 	}
+	// many sibling holders in one collection under a SMALL but sufficient depth limit (the nesting
+	// is 2 or 3 whatever the number of siblings), alone and under the other wrappers: a level that is
+	// not given back per element would exhaust it
+	{
+		use crate::derived::Marker;
+		use std::rc::Rc;
+		use std::sync::Arc;
+		macro_rules! wide {
+			($t:ty, $elem:expr, $label:expr) => {{
+				for n in [8usize, 70, 300] {
+					let v: $t = (0..n).map($elem).collect();
+					let bs = v.encode();
+					for limit in [3u32, 8] {
+						let r = catch_unwind(AssertUnwindSafe(|| {
+							let mut s = &bs[..];
+							let r = <$t>::decode_with_depth_limit(limit, &mut s);
+							(r, s.len())
+						}));
+						let ans = match r {
+							Ok((Ok(x), rem)) => format!("ok {} {}", val_string(&x, true), rem),
+							Ok((Err(_), _)) => "err".into(),
+							Err(_) => "panic".into(),
+						};
+						ctx.emit("big-wide", $label, &format!("limit {} {} {}", limit, <$t>::ty(4), hex_or_dash(&bs)), &ans);
+						let stacked = catch_unwind(AssertUnwindSafe(|| {
+							let mut s = &bs[..];
+							let mut m = MemTrackingInput::new(&mut s, usize::MAX);
+							let mut c = CountedInput::new(&mut m);
+							<$t>::decode_with_depth_limit(limit, &mut c).is_ok()
+						}));
+						let plain_ok = <$t>::decode(&mut &bs[..]).is_ok();
+						if !matches!(stacked, Ok(true)) || !plain_ok {
+							ctx.oracle_fail("C08", format!("{} with {} elements: nesting is at most 3 but decoding under a depth limit of {} (over counting and memory-tracking wrappers) gives {:?}, plain decode ok={}", $label, n, limit, stacked.ok(), plain_ok));
+						}
+					}
+				}
+			}};
+		}
+		wide!(Vec<Box<()>>, |_| Box::new(()), "Vec<Box<()>>");
+		wide!(Vec<Rc<u32>>, |i| Rc::new(i as u32), "Vec<Rc<u32>>");
+		wide!(Vec<Arc<u8>>, |i| Arc::new(i as u8), "Vec<Arc<u8>>");
+		wide!(Vec<Box<Marker>>, |_| Box::new(Marker::Only), "Vec<Box<Marker>>");
+		wide!(std::collections::VecDeque<Rc<Marker>>, |_| Rc::new(Marker::Only), "VecDeque<Rc<Marker>>");
+		wide!(std::collections::LinkedList<Box<u16>>, |i| Box::new(i as u16), "LinkedList<Box<u16>>");
+		wide!(Vec<Box<Vec<u8>>>, |i| Box::new(vec![i as u8; i % 3]), "Vec<Box<Vec<u8>>>");
+		wide!(Vec<(Arc<u16>, Box<()>)>, |i| (Arc::new(i as u16), Box::new(())), "Vec<(Arc<u16>,Box<()>)>");
+	}
 	// a long string (the Vec<u8> bulk path plus UTF-8 validation)
 	for n in [16383usize, 16384, 16385, 40000] {
 		let s: String = (0..n).map(|i| if i % 7 == 0 { 'é' } else { 'a' }).collect();
@@ -1126,6 +1173,20 @@ fn big_stream(ctx: &mut Ctx) {
 				// oracle (C02): a valid string decodes to itself
 				if String::decode(&mut &bs[..]).ok().as_deref() != Some(&s[..]) {
 					ctx.oracle_fail("C02", format!("a valid {}-byte string with {:?} across byte offset {} does not decode to itself", s.len(), ch, boundary));
+				}
+				// the same through inputs that cannot report their length (validated in one go all the same)
+				{
+					let mut u = UnknownLenInput { data: &bs, pos: 0 };
+					if String::decode(&mut u).ok().as_deref() != Some(&s[..]) || u.pos != bs.len() {
+						ctx.oracle_fail("C08", format!("a valid {}-byte string with {:?} across byte offset {} does not decode to itself from an input of unknown length", s.len(), ch, boundary));
+					}
+					#[cfg(feature = "codec-std")]
+					{
+						let mut io = parity_scale_codec::IoReader(std::io::Cursor::new(&bs[..]));
+						if String::decode(&mut io).ok().as_deref() != Some(&s[..]) {
+							ctx.oracle_fail("C08", format!("a valid {}-byte string with {:?} across byte offset {} does not decode to itself from IoReader", s.len(), ch, boundary));
+						}
+					}
 				}
 				// and a broken character at the same place is rejected
 				let mut bad = bs.clone();
@@ -1337,6 +1398,22 @@ pub fn run_mem_type<T: Cat + DecodeWithMemTracking>(ctx: &mut Ctx, name: &'stati
 					}
 				},
 				Err(_) => ctx.oracle_fail("C03", format!("{}: depth-limited decode over a memory tracker panicked", name)),
+			}
+			// a tracker stacked on a tracker (a per-message limit inside a per-connection budget): both
+			// see the same usage
+			let r2 = catch_unwind(AssertUnwindSafe(|| {
+				let mut s = &bs[..];
+				let mut lower = MemTrackingInput::new(&mut s, usize::MAX);
+				let (ok, upper_used) = {
+					let mut upper = MemTrackingInput::new(&mut lower, usize::MAX);
+					(T::decode(&mut upper).is_ok(), upper.used_mem())
+				};
+				(ok, upper_used, lower.used_mem())
+			}));
+			if let Ok((ok, upper_used, lower_used)) = r2 {
+				if ok != top.starts_with("ok") || (ok && (upper_used != u || lower_used != u)) {
+					ctx.oracle_fail("C12", format!("{}: a memory tracker over a memory tracker: ok={} upper used_mem()={} lower used_mem()={} but alone ok={} U={} on {}", name, ok, upper_used, lower_used, top.starts_with("ok"), u, hex_or_dash(&bs[..bs.len().min(60)])));
+				}
 			}
 			let r = catch_unwind(AssertUnwindSafe(|| {
 				let mut s = &bs[..];
@@ -2021,7 +2098,7 @@ fn alloc_case<T: Cat>(ctx: &mut Ctx, name: &str, bs: &[u8], depth_allowance: usi
 	#[cfg(feature = "bytes-f")]
 	let shared = bytes::Bytes::copy_from_slice(bs);
 	ZST_INPUT.with(|c| *c.borrow_mut() = (bs.to_vec(), 0));
-	for input_kind in 0..5 {
+	for input_kind in 0..7 {
 		#[cfg(not(feature = "bytes-f"))]
 		if input_kind == 3 {
 			continue;
@@ -2058,10 +2135,23 @@ fn alloc_case<T: Cat>(ctx: &mut Ctx, name: &str, bs: &[u8], depth_allowance: usi
 						false
 					}
 				},
-				_ => T::decode(&mut ZstInput).is_ok(),
+				4 => T::decode(&mut ZstInput).is_ok(),
+				// under a generous memory limit (1 GiB) and under a depth limit: the limits bound the
+				// decoder, they are not a licence to reserve up to them
+				5 => {
+					let mut s = &bs[..];
+					let mut mi = MemTrackingInput::new(&mut s, 1 << 30);
+					T::decode(&mut mi).is_ok()
+				},
+				_ => {
+					let mut u = UnknownLenInput { data: bs, pos: 0 };
+					let mut mi = MemTrackingInput::new(&mut u, 1 << 30);
+					let mut ci = CountedInput::new(&mut mi);
+					T::decode(&mut ci).is_ok()
+				},
 			}))
 		});
-		let kind = ["slice", "unknown-length input", "io reader", "shared buffer", "zero-sized input type"][input_kind];
+		let kind = ["slice", "unknown-length input", "io reader", "shared buffer", "zero-sized input type", "memory-tracking input (1 GiB limit) over a slice", "counting over memory-tracking (1 GiB) over an unknown-length input"][input_kind];
 		ctx.count("alloc:measured-decodes", 1);
 		// the requests themselves (count, sum, largest) are compared with the model's request trace
 		// (`Impl.decodeR`) — exactly, for the types whose allocations are all the crate's own
